@@ -89,6 +89,17 @@ def _solver(base_axioms, ob, timeout_s, seed, mbqi):
     return s
 
 
+def export_smt2(base_axioms, ob):
+    """SMT-LIB text for the other back end (the default Solver prints string literals in the portable form)"""
+    s = z3.Solver()
+    for ax in base_axioms:
+        s.add(ax)
+    for f in ob.pc:
+        s.add(f)
+    s.add(z3.Not(ob.formula))
+    return s.to_smt2()
+
+
 def discharge(ob, base_axioms, timeout_s=20, seed=0, both=False, keep_model=True):
     """ob: state.Obligation -> Verdict.
 
@@ -142,7 +153,7 @@ def discharge(ob, base_axioms, timeout_s=20, seed=0, both=False, keep_model=True
             reason += ' | mbqi: ' + s2.reason_unknown()
             cv, why = 'unknown', 'not run'
             try:
-                cv, why = run_cvc5(s2.to_smt2(), min(timeout_s / 4, 8) if saturated else timeout_s)
+                cv, why = run_cvc5(export_smt2(base_axioms, ob), min(timeout_s / 4, 8) if saturated else timeout_s)
             except Exception as e:  # pragma: no cover
                 why = str(e)
             if cv == 'unsat':
@@ -160,7 +171,7 @@ def discharge(ob, base_axioms, timeout_s=20, seed=0, both=False, keep_model=True
                 reason += f' | cvc5: {why}'
     if both and status == 'discharged' and backend == 'z3':
         try:
-            cv, why = run_cvc5(s1.to_smt2(), timeout_s)
+            cv, why = run_cvc5(export_smt2(base_axioms, ob), timeout_s)
             if cv == 'sat':
                 status, backend, reason = 'unknown', 'z3+cvc5', 'solvers disagree: z3=unsat cvc5=sat'
             elif cv == 'unsat':
